@@ -144,6 +144,7 @@ H_ARR = Harness(
                   "partition": ["n", "top", "ss", "marker"], "timeout": 300,
                   "twin_fixed": {"n": 2, "top": 0, "ss": 1, "marker": 1}},
         "thorough": {"partition": ["n", "top", "share", "ss", "marker", "nondict"], "timeout": 1800,
+                     "filter": (lambda f: not (f["n"] == 4 and f["marker"] >= 2)),      # mixed class kinds: up to three instances
                      "extra_pre": ["n <= 3 or (h1 <= 2 and h2 <= 2 and h3 <= 2)"],
                      "twin_fixed": {"n": 2, "top": 0, "share": 0, "ss": 1, "marker": 1, "nondict": 0}},
     },
